@@ -113,7 +113,9 @@ var shapes = []struct {
 	{"underscore", func(b string) string { return "message" }, func(b string) *gen.Node { return id("_") }},
 }
 
-var situations = []string{"variable", "field", "tag", "variable+field", "variable+tag", "absent"}
+var situations = []string{"variable", "field", "tag", "variable+field", "variable+tag", "absent",
+	// the variable lives in a block between the top level and the block of the call
+	"variable@outer-block", "variable@for-in", "variable@for-init", "variable@top-from-depth2", "variable@outer-block+field"}
 
 var values = []any{nil, true, int64(5), int64(0), 2.5, "plain", "", "  padded \t", "a%20b%2Fc", "%zz", "{\"a\": 1}", "MiXed é", []any{int64(1), "x"}, map[string]any{"k": 2.0}}
 
@@ -234,12 +236,32 @@ func TestCrossProduct(t *testing.T) {
 								continue // the value does not matter when the subject is absent
 							}
 						}
-						prog = append(prog, stmts...)
+						body := append([]*gen.Node{}, stmts...)
 						// follow-up: read the subject key back the way later statements of a script would
-						prog = append(prog, gen.NCall("probe", str("after-get_key"), gen.NCall("get_key", gen.NStr(k))))
+						body = append(body, gen.NCall("probe", str("after-get_key"), gen.NCall("get_key", gen.NStr(k))))
 						if sh.name != "attr" {
-							prog = append(prog, gen.NCall("probe", str("after-read"), gen.NIdent(k), gen.NCall("len", gen.NIdent(k))),
+							body = append(body, gen.NCall("probe", str("after-read"), gen.NIdent(k), gen.NCall("len", gen.NIdent(k))),
 								gen.NCall("uppercase", gen.NStr(k)), gen.NCall("probe", str("after-upper"), gen.NCall("get_key", gen.NStr(k))))
+						}
+						inIf := func(b []*gen.Node) *gen.Node { return gen.NIf([]*gen.Node{gen.NBool(true)}, [][]*gen.Node{b}, nil, false) }
+						switch sit {
+						case "variable@outer-block", "variable@outer-block+field":
+							if sit == "variable@outer-block+field" {
+								if !isScalar(v) {
+									continue
+								}
+								fields[k] = "from the point"
+							}
+							prog = append(prog, inIf([]*gen.Node{gen.NSet(k, sgen.Lit(v)), inIf(body)}))
+						case "variable@for-in":
+							prog = append(prog, gen.NForIn(k, gen.NList(sgen.Lit(v)), []*gen.Node{inIf(body)}))
+						case "variable@for-init":
+							prog = append(prog, gen.NFor(gen.NSet(k, sgen.Lit(v)), gen.NBin("<", id("pass"), gen.NInt(1)), gen.NSet("pass", gen.NInt(1)), []*gen.Node{inIf(body)}))
+							prog = append([]*gen.Node{gen.NSet("pass", gen.NInt(0))}, prog...)
+						case "variable@top-from-depth2":
+							prog = append(prog, gen.NSet(k, sgen.Lit(v)), inIf([]*gen.Node{gen.NSet("mid", gen.NInt(1)), inIf(body)}))
+						default:
+							prog = append(prog, body...)
 						}
 						c := sem.NewCase(gen.FixAll(prog))
 						c.Fields, c.Tags = fields, tags
@@ -253,6 +275,38 @@ func TestCrossProduct(t *testing.T) {
 		}
 	}
 	evid.Exhaustive("builtin x argument shape x subject situation x value", n)
+}
+
+// TestSharedSubvalues: a finite value in which one collection is reachable along two paths is formatted, printed and
+// cast like any other finite value (only a value that contains itself is refused).
+func TestSharedSubvalues(t *testing.T) {
+	uses := []struct {
+		name string
+		mk   func() []*gen.Node
+	}{
+		{"strfmt-v", func() []*gen.Node { return []*gen.Node{gen.NCall("strfmt", id("out"), str("%v"), id("v"))} }},
+		{"strfmt-mixed", func() []*gen.Node {
+			return []*gen.Node{gen.NCall("strfmt", id("out"), str("%s|%v|%d"), id("v"), id("leaf"), id("v"))}
+		}},
+		{"printf", func() []*gen.Node { return []*gen.Node{gen.NCall("printf", str("%v %v\n"), id("v"), id("leaf"))} }},
+		{"cast-str", func() []*gen.Node { return []*gen.Node{gen.NCall("cast", id("v"), str("str")), gen.NCall("probe", str("v"), id("v"))} }},
+		{"cast-int", func() []*gen.Node { return []*gen.Node{gen.NCall("cast", id("v"), str("int")), gen.NCall("probe", str("v"), id("v"))} }},
+		{"strfmt-twice", func() []*gen.Node {
+			return []*gen.Node{gen.NCall("strfmt", id("out"), str("%v"), id("v")), gen.NCall("strfmt", id("out2"), str("%v%v"), id("v"), id("v"))}
+		}},
+	}
+	n := 0
+	for _, sv := range sgen.SharedValuePrograms() {
+		for _, u := range uses {
+			prog := append(sv.Make(), u.mk()...)
+			prog = append(prog, gen.NCall("probe", str("after"), id("keep")))
+			c := sem.NewCase(gen.FixAll(prog))
+			c.Fields = map[string]any{"keep": int64(42)}
+			judge(t, "shared-subvalue", c, "shared/"+sv.Name+"/"+u.name, true, "shared-subvalue")
+			n++
+		}
+	}
+	evid.Exhaustive("leaf kind x shape with one collection on two paths x {strfmt, printf, cast}", n)
 }
 
 // TestArgumentTables: the non-subject arguments of replace / trim / strfmt over their own domains (the cross
